@@ -228,13 +228,24 @@ func vrtGoLib(f func()) { vrtSpawn(f, false) }
 
 func vrtSpawn(f func(), joinable bool) {
 	s := vrtS.sched
+	if joinable {
+		s.wg.Add(1)
+	}
+	if len(s.order) == 0 {
+		// no schedule to follow: a plain goroutine, without any bookkeeping that would
+		// order it against its siblings (the race detector must see what the engine sees)
+		go func() {
+			if joinable {
+				defer s.wg.Done()
+			}
+			f()
+		}()
+		return
+	}
 	s.mu.Lock()
 	id := s.next
 	s.next++
 	s.mu.Unlock()
-	if joinable {
-		s.wg.Add(1)
-	}
 	go func() {
 		s.mu.Lock()
 		s.ids[vrtGoid()] = id
